@@ -3,6 +3,7 @@
     the OCaml types of the same name; nat, N, positive stay Coq datatypes. *)
 From Coq Require Extraction.
 From Coq Require Import ExtrOcamlBasic.
-From CR Require Import Base Atomic Machine.
+From CR Require Import Base Atomic Machine InvDef.
 Extraction Language OCaml.
-Extraction "../ocaml/model.ml" exec_op init_state NSLOTS NREGS cycle_refs orphaned_cycle trace_fuel.
+Extraction "../ocaml/model.ml" exec_op init_state NSLOTS NREGS cycle_refs orphaned_cycle trace_fuel
+  step exec_act exec_new invb step_ok discb act_safe.
